@@ -645,6 +645,8 @@ def q_insert_conflict(o, tier):
         'add_appointment_receipt': ('store_appointment_receipt', None, None, None),
         'flag_misbehaving_tower': ('store_misbehaving_proof', 'misbehaving_proofs', 'TowerStatus::is_misbehaving', True),
     }
+    # tables whose row must carry the *new* values once the store call returned Ok (the proof is the receipt just received)
+    must_write = {'flag_misbehaving_tower': ['appointment_receipts', 'misbehaving_proofs']}
     want = o.get('recorders') or list(conf)
     failed, queries, solver_s, wit = [], 0, 0.0, {}
     for rec in want:
@@ -706,6 +708,31 @@ def q_insert_conflict(o, tier):
                     'guarded_by': test if any(gd for _, _, gd in cases) else None, 'unwrapped': any(u for _, u, _ in cases)}
         if v == 'inconclusive':
             return {'verdict': 'inconclusive', 'reason': out[:200]}
+        # lost write: the store call succeeds although an INSERT OR IGNORE left an older row in place
+        lost = []
+        for ci, (r, unwrapped, guard) in enumerate(cases):
+            g = []
+            for (_, _, v_) in guard:
+                g.append('mirror' if (v_ != '0') == test_when_present else '(not mirror)')
+            for si, (sf, sok) in enumerate(summ):
+                if sf:
+                    continue
+                for (t2, p2) in sok:
+                    if p2 == 'ignore' and t2 in must_write.get(rec, []):
+                        conds = list(g) + ['row_%s' % t2] + ['(not row_%s)' % t3 for (t3, p3) in sok if p3 == 'abort']
+                        lost.append((t2, '(and %s)' % ' '.join(conds)))
+        if lost:
+            text2 = text[:text.index('(declare-const c Int)')] + '(assert (or false %s))\n(check-sat)\n(get-model)\n' % ' '.join(x[1] for x in lost)
+            v2, out2, dt2 = smt(text2)
+            queries += 1
+            solver_s += dt2
+            if v2 == 'inconclusive':
+                return {'verdict': 'inconclusive', 'reason': out2[:200]}
+            if v2 == 'sat':
+                pre = {m_.group(1): m_.group(2) for m_ in re.finditer(r'define-fun (mirror|row_\w+) \(\) Bool\s+(true|false)', out2)}
+                failed.append({'description': 'WTClient::%s reports success although DBM::%s keeps an older row of table %s (INSERT OR IGNORE): what was to be persisted is silently dropped'
+                                              % (rec, store, lost[0][0]),
+                               'function': 'WTClient::%s' % rec, 'pre_state': pre})
         if v == 'sat':
             ci = int(re.search(r'define-fun c \(\) Int\s+(\d+)', out).group(1))
             si = int(re.search(r'define-fun s \(\) Int\s+(\d+)', out).group(1))
@@ -1126,6 +1153,59 @@ def q_purge_race(o, tier):
             'witness': wit, 'functions': sorted(short(x) for x in sk.functions_seen)}
 
 
+def q_retry_data_kept(o, tier):
+    """C13.M5: RetryManager::manage_retry, one received message (tower_id, data). Every path from the reception back to the
+    next reception either (a) finds the tower abandoned (contains_key false), (b) hands the data to
+    add_pending_appointments, or (c) goes through the true edge of Retrier::is_idle - an idle retrier keeps no data in memory
+    and reloads everything pending from the database when it wakes up (load_appointment_locators), so dropping the message
+    is harmless there and only there. Query: exists a path that does none of the three (data for a stopped or running
+    retrier silently dropped: the appointment stays pending for ever while the tower is shown reachable)."""
+    funcs, idx, t_mir, err = load_mir('watchtower-plugin', 'lib')
+    if funcs is None:
+        return {'verdict': 'inconclusive', 'reason': 'MIR dump failed'}
+    name = [n for n in funcs if re.match(r'^retrier::<impl at .*?>::manage_retry::\{closure#0\}$', n)]
+    if len(name) != 1:
+        return {'verdict': 'inconclusive', 'reason': 'manage_retry not found'}
+    f = funcs[name[0]]
+    recv = [b for b in f.blocks.values() if b.term['kind'] == 'call' and re.search(r'UnboundedReceiver::<.*>::try_recv$', b.term['callee'])]
+    if len(recv) != 1:
+        return {'verdict': 'inconclusive', 'reason': 'anchor try_recv not found (%d)' % len(recv)}
+    rows = enum_paths(f, recv[0].term['next'], r'UnboundedReceiver::<.*>::try_recv$')
+    if rows is None:
+        return {'verdict': 'inconclusive', 'reason': 'path explosion'}
+    # the Ok((tower_id, data)) arm is the one that asks whether the tower is still known
+    rows = [r for r in rows if any(e[0] == 'call' and e[1].endswith('::contains_key') for e in r) and r[-1][0] == 'stop']
+
+    def abandoned(r):
+        return any(e[0] == 'branch' and e[1].endswith('::contains_key') and e[2] == '0' for e in r)
+
+    def handed_over(r):
+        return any(e == ('call', 'RetryManager::add_pending_appointments') for e in r)
+
+    def idle(r):
+        return any(e[0] == 'branch' and e[1] == 'Retrier::is_idle' and e[2] != '0' for e in r)
+    if not rows or not any(handed_over(r) for r in rows):
+        return {'verdict': 'inconclusive', 'reason': 'vacuous: %d paths through the Ok arm' % len(rows)}
+    failed = []
+    v, i, dt, out = _exists(rows, lambda r: not abandoned(r) and not handed_over(r) and not idle(r), 'drop')
+    if v == 'inconclusive':
+        return {'verdict': 'inconclusive', 'reason': out[:200]}
+    if v == 'sat':
+        failed.append({'description': 'manage_retry can drop the data of a message for a retrier that is not idle (stopped or running): the appointment is never re-sent although the tower ends up shown as reachable',
+                       'function': 'RetryManager::manage_retry', 'schedule': [list(e) for e in rows[i] if e[0] in ('call', 'branch')][:14]})
+    # an idle retrier that is woken up must reload from the database before it is marked Stopped-with-data
+    v2, i2, dt2, out2 = _exists(rows, lambda r: idle(r) and not any(e[0] == 'call' and e[1].endswith('::continue') for e in r)
+                                and any(e[0] == 'mk' and e[1] == 'RetrierStatus::Stopped' for e in r)
+                                and not any(e == ('call', 'DBM::load_appointment_locators') for e in r), 'reload')
+    if v2 == 'sat':
+        failed.append({'description': 'an idle retrier is woken up (set to Stopped) without reloading the pending appointments from the database',
+                       'function': 'RetryManager::manage_retry', 'schedule': [list(e) for e in rows[i2] if e[0] in ('call', 'branch', 'mk')][:14]})
+    return {'verdict': 'fails' if failed else 'holds', 'failed': failed, 'queries': 2, 'solver_s': dt + dt2,
+            'witness': {'paths': len(rows), 'handed_over': sum(1 for r in rows if handed_over(r)), 'idle': sum(1 for r in rows if idle(r)),
+                        'abandoned': sum(1 for r in rows if abandoned(r))},
+            'functions': ['watchtower_plugin::retrier::RetryManager::manage_retry']}
+
+
 def q_retry_progress(o, tier):
     """C13: (no_spin) inside Retrier::run every way a re-sent appointment can be answered either makes progress (the
     locator leaves the in-memory pending set) or ends the run (the back-off strategy of `retry_notify` then decides when to
@@ -1507,6 +1587,7 @@ QUERIES = {
     'responder_block_order': q_responder_block_order,
     'insert_conflict': q_insert_conflict,
     'purge_race': q_purge_race,
+    'retry_data_kept': q_retry_data_kept,
 }
 
 
